@@ -288,6 +288,7 @@ fn c12_bits_f64_roundtrip() {
 /// Heap references: for every non-null 48-bit address and each of the four pointer masks the
 /// tagged word has exactly that type and gives the address back.
 // FN: bits::tag_pointer, bits::untag_pointer
+// ALSO: C02
 #[kani::proof]
 fn c12_bits_pointer_roundtrip() {
     let a: usize = kani::any();
@@ -318,6 +319,7 @@ fn c12_bits_pointer_roundtrip() {
 /// Addresses that need more than 48 bits hit the documented panic instead of being truncated.
 // EXPECT-PANIC: this platform is not compatible with a nan-boxed
 // FN: bits::tag_pointer
+// ALSO: C02
 #[kani::proof]
 #[kani::should_panic]
 fn c12_bits_pointer_too_wide_panics() {
